@@ -90,6 +90,15 @@ Proof.
   intros H. cbn [exec_nofinally]. destruct (run_seq exec_nofinally (upd s k v) body) as [s' o]. cbn [snd] in H. subst o. reflexivity.
 Qed.
 
+(* --- 11. nested blocks of the SAME setting: the innermost value is in force, and leaving the inner block brings the OUTER value back --- *)
+Theorem innermost_wins_and_outer_returns k v w s :
+  exists s2, run_seq exec (upd s k v) [Block k w [Obs]; Obs] = (s2, Normal) /\
+             log s2 = [set (cur s) k v; set (cur s) k w] ++ log s /\ cur s2 = set (cur s) k v.
+Proof.
+  eexists. cbn [run_seq exec]. unfold upd. cbn [cur log fst]. rewrite !get_set_same, !set_set.
+  split; [reflexivity|]. split; reflexivity.
+Qed.
+
 (* non-vacuity *)
 Example noraise_example :
   let p := [Block 0 3 [Obs; Try [Block 1 2 [Obs; SetG 2 9; Obs]]; Obs]; Obs] in
